@@ -11,6 +11,8 @@ const (
 	setLen
 	setAddSet
 	setRemoveSet
+	setAddSelf    // s.AddSet(s)
+	setRemoveSelf // s.RemoveSet(s)
 )
 
 // c05spec: sequential set over the two universe values; membership is concrete per path.
@@ -97,7 +99,7 @@ func VHSetConc() {
 	s := &Set[int]{}
 	in := c05prefix(s, u)
 	nt := vParam("T")
-	kinds := vParam("KINDS") // 4: single-element operations only; 6: also AddSet/RemoveSet
+	kinds := vParam("KINDS") // 4: single-element operations only; 6: also AddSet/RemoveSet; 8: also with the set itself as the argument
 	ops := make([]*linOp, nt)
 	bulk := false
 	for t := 0; t < nt; t++ {
@@ -126,6 +128,10 @@ func VHSetConc() {
 				arg := maps.Set[int]{}
 				arg.Add(u[o.key])
 				o.r = s.RemoveSet(arg)
+			case setAddSelf:
+				o.r = s.AddSet(s)
+			case setRemoveSelf:
+				o.r = s.RemoveSet(s)
 			}
 			linEnd(o)
 		})
@@ -153,9 +159,9 @@ func VHSetConc() {
 			if o.rok {
 				lost++
 			}
-		case setAddSet:
+		case setAddSet, setAddSelf:
 			gained += o.r
-		case setRemoveSet:
+		case setRemoveSet, setRemoveSelf:
 			lost += o.r
 		}
 	}
